@@ -165,3 +165,6 @@ mod test {
         );
     }
 }
+
+#[cfg(kani)]
+pub(crate) mod verif_kani;
